@@ -754,3 +754,51 @@ Example commit_as_needed_runs_fixed :
 Proof. eexists. split; [vm_compute; reflexivity|]. repeat split; try (vm_compute; reflexivity).
   eexists. split; [vm_compute; reflexivity|]. repeat split; try (vm_compute; reflexivity).
   eexists. split; [vm_compute; reflexivity|]. split; vm_compute; reflexivity. Qed.
+
+Local Open Scope N_scope.
+
+(* ---------------- Identity.Commit and the reference (audit C11-A4) ---------------- *)
+(* An in-memory identity knows the committed versions `known` and has the uncommitted versions `news`; the reference holds the chain `ref`
+   (a version commit determines the chain below it).  Commit writes `news` on top of `known` and moves the reference there.
+   guard = true is the repaired code: refused unless the reference points to one of the versions the object knows (ref is a prefix of known);
+   guard = false is the code as found. *)
+Definition id_commit (guard : bool) (ref known news : list N) : option (list N) :=
+  if guard && negb (prefixb ref known) then None else Some (known ++ news).
+
+Lemma prefixb_spec : forall a b, prefixb a b = true -> exists s, b = a ++ s.
+Proof. induction a as [|x a IH]; intros b H; [exists b; reflexivity|].
+  destruct b as [|y b]; [discriminate|]. cbn in H. apply andb_true_iff in H as [E P]. apply N.eqb_eq in E. subst y.
+  destruct (IH b P) as [s ->]. exists s. reflexivity. Qed.
+
+Theorem id_commit_keeps_versions ref known news l : id_commit true ref known news = Some l -> exists s, l = ref ++ s.
+Proof. unfold id_commit. cbn. destruct (prefixb ref known) eqn:P; cbn; [|discriminate]. intros E. inversion E.
+  destruct (prefixb_spec _ _ P) as [s ->]. exists (s ++ news). now rewrite app_assoc. Qed.
+
+Theorem id_commit_unguarded_refuted : exists ref known news l, id_commit false ref known news = Some l /\ ~ exists s, l = ref ++ s.
+Proof. exists [1; 3], [1], [2], [1; 2]. split; [reflexivity|]. intros [s H]. cbn in H. inversion H. Qed.
+
+(* ---------------- RepoCache.Pull and the merge results (audit C11-A3) ---------------- *)
+(* the results Pull reads from MergeAll (the sub-caches register a merged entity only while their results are read);
+   drain = false is the code as found: it returns at the first refused entity *)
+Definition st_invalid (s : mstatus) : bool := match s with MInvalid => true | _ => false end.
+Fixpoint pull_read (drain : bool) (rs : list mstatus) : list mstatus :=
+  match rs with [] => [] | s :: t => s :: (if negb drain && st_invalid s then [] else pull_read drain t) end.
+Theorem pull_reads_every_result rs : pull_read true rs = rs.
+Proof. induction rs as [|s t IH]; cbn; [reflexivity|]. now rewrite IH. Qed.
+Theorem pull_early_return_refuted : exists rs, In MNew rs /\ ~ In MNew (pull_read false rs).
+Proof. exists [MInvalid; MNew]. split; [cbn; auto|]. cbn. intros [H|[]]. discriminate. Qed.
+
+(* user 1's identity gets a version on both sides (user 0 renames it locally, user 1 renames it and publishes it together with a new bug):
+   the pull of user 0 reports the identity as refused and the bug as new, and the bug is listed, indexed and resolvable at once *)
+Definition witness_refused_pull : list cev :=
+  [VIdNew 0 0 1%N; VIdNew 1 1 2%N; VPush 1; VPull 0 [1%nat] []; VIdUpd 0 1 5%N; VIdUpd 1 1 4%N; VNew 1 10%N 2%N [100%N]; VPush 1].
+Example refused_pull_runs_fixed :
+  exists cw, crun fixed 2 (cw0 2) witness_refused_pull = Some cw /\
+  exists cw', cstep fixed 2 cw (VPull 0 [1%nat] [(0%nat, 0%N, 0%N)]) = Some (cw', CPulled [MInvalid] [MNew]) /\
+              quiescentb_at cw' 0 = true /\
+              gfi (iw cw') 0 1 = Some [2%N; 5%N] /\
+              kget 0 (sx (cb (ucache_of cw' 0))) = Some (clean (0%nat, [100%N])) /\
+              kget 0 (si (cb (ucache_of cw' 0))) = Some (clean (0%nat, [100%N])) /\
+              bug_served cw' 0 (cb (ucache_of cw' 0)) 0 = Some (clean (0%nat, [100%N])).
+Proof. eexists. split; [vm_compute; reflexivity|]. eexists. split; [vm_compute; reflexivity|]. repeat split; vm_compute; reflexivity. Qed.
+
